@@ -88,6 +88,8 @@ Definition val_encodable (f : tfield) (v : tval) : Prop :=
   | FTag, VBytes b => zlen b <= 255
   | FB32, VBytes b => zlen b <= 255
   | FEnum k, VInt z => 0 <= z <= enum_max k
+  | FIntC maxv, VInt z => 0 <= z <= maxv
+  | FSigTime, VInt z => 0 <= z <= 4294967295
   | _, _ => True
   end.
 
@@ -111,7 +113,7 @@ Qed.
 Theorem parse_field_encodable c f st raw st' v :
   parse_field c f st = Ok (raw, st') -> ctor_field f raw = Ok v -> val_encodable f v.
 Proof.
-  destruct f as [maxv| |tokmax ctormax ne| | |sc| |v6| | | | | |k|]; cbn [parse_field]; intros H Hc.
+  destruct f as [maxv| |tokmax ctormax ne| | |sc| |v6| | | | | |k| |maxc|]; cbn [parse_field]; intros H Hc.
   - unfold get_uint, as_uint in H.
     destruct (get_unescaped st) as [[t s1]| |]; cbn [bind fst snd] in H; try discriminate.
     destruct (as_int t 10) as [z| |]; cbn [bind fst snd] in H; try discriminate.
@@ -153,6 +155,13 @@ Proof.
     destruct ((z <? 0) || (z >? enum_max k)) eqn:E; cbn [bind] in Hc; try discriminate. inversion Hc; subst.
     cbn [val_encodable]. lia.
   - destruct v; exact Logic.I.
+  - destruct (get_int st 10) as [[z s1]| |]; cbn [bind fst snd] in H; try discriminate. inversion H; subst.
+    cbn [ctor_field] in Hc. destruct ((z <? 0) || (z >? maxc)) eqn:E; try discriminate. inversion Hc; subst.
+    cbn [val_encodable]. lia.
+  - destruct (get_string st 0) as [[t s1]| |]; cbn [bind fst snd] in H; try discriminate.
+    destruct (sigtime_to_posixtime t) as [z| |]; cbn [bind fst snd] in H; try discriminate. inversion H; subst.
+    cbn [ctor_field] in Hc. destruct ((z <? 0) || (z >? 4294967295)) eqn:E; try discriminate. inversion Hc; subst.
+    cbn [val_encodable]. lia.
 Qed.
 
 (* names accepted from text satisfy the DNS limits (hence to_wire with an origin cannot fail on length) *)
